@@ -24,7 +24,7 @@ def main():
     units = sorted(os.path.basename(p)[:-3] for p in glob.glob(os.path.join(VERIF, "contracts", "verus", "*.rs")))
     tot = dict(ok=0, fail=0, error=0)
     for d in (sys.argv[1:] or sorted(glob.glob(os.path.join(VERIF, "benign", "*")))):
-        for patch in sorted(glob.glob(os.path.join(d, "*.diff"))):
+        for patch in sorted(glob.glob(os.path.join(os.path.abspath(d), "*.diff"))):
             shutil.rmtree(W, ignore_errors=True)
             subprocess.run(["rsync", "-a", "--exclude", "target", "--exclude", ".git", "/repo/", W + "/"], check=True)
             a = subprocess.run(["patch", "-p1", "-s", "-i", patch], cwd=W, capture_output=True, text=True)
